@@ -181,7 +181,7 @@ type StepCase struct {
 	Pre            z80.States
 	Bytes          []uint8 // placed at PC (wrapping)
 	IOSeed         uint64
-	PreHALT        bool // CPU.HALT already true before the Step (sticky flag; Step must behave the same)
+	PreHALT        bool // CPU.HALT already true before the Step: the Step must behave the same; afterwards the indication may still be true (sticky, as on this tree) or have been dropped by a non-HALT instruction (pin-like)
 	NoHandlers     bool // no RETN/RETI handler registered
 	PendingRefused bool // a maskable request is pending with IFF1 clear: it is refused, stays pending, and the instruction runs as usual
 	MoveCPU        bool // chain mode: continue on a by-value copy of the CPU struct; the old struct is scribbled over
@@ -348,7 +348,7 @@ func (g *StepRig) Run(c *StepCase) (out StepOutcome) {
 	p.IFF1, e.IFF1 = false, false
 	pr, er := p.IR.Lo, e.IR.Lo
 	p.IR.Lo, e.IR.Lo = 0, 0 // R is C14's subject; I stays in the comparison
-	if p != e || !fOK || !iffOK || out.PostHALT != (info.Halt || c.PreHALT) {
+	if p != e || !fOK || !iffOK || (out.PostHALT != info.Halt && out.PostHALT != (info.Halt || c.PreHALT)) {
 		out.Bad |= BadState
 	}
 	if !(pr == er || (info.RAlt && pr == inc7(er))) {
